@@ -197,10 +197,10 @@ def same_domain(read, want):
 
 # ---- the family ------------------------------------------------------------------------------------------
 
-COEFFS = [1.0, -1.0, 2.5, -2.5, 1e-7, -1e-7, 1e9, 3.0, 0.0, 1.0000001, -0.9999999, 0.5, -1e-9]
+COEFFS = [1.0, -1.0, 2.5, -2.5, 1e-7, -1e-7, 1e9, 3.0, 0.0, 1.0000001, -0.9999999, 0.5, -1e-9, 1e19, -1e20, 9.3e18, 1.5e30]
 NAMES = ["x", "y_1", "$abs_0", "z_A_2", "set_A__2", "$max_1_select_0", "w"]
 DOMAINS = [("Boolean",), ("IntegerRange", 0, 10), ("IntegerRange", -5, 5), ("Real", -INF, INF), ("Real", -INF, 3.5), ("Real", -2.0, INF), ("Real", -2.0, 2.0),
-           ("NonNegativeReal", 0.0, INF), ("NonNegativeReal", 0.0, 10.0), ("NonNegativeReal", 2.0, INF), ("Real", 0.0, INF), ("Real", -INF, -1.5)]
+           ("NonNegativeReal", 0.0, INF), ("NonNegativeReal", 0.0, 10.0), ("NonNegativeReal", 2.0, INF), ("Real", 0.0, INF), ("Real", -INF, -1.5), ("Real", -1e20, 1e20), ("NonNegativeReal", 0.0, 1e19)]
 
 
 def family(tier):
@@ -220,7 +220,7 @@ def family(tier):
             rows = [("c%d" % i, co, "LessOrEqual", 5.0), ("", list(reversed(co)), "GreaterOrEqual", -2.5)]
             models.append(("coeff:%r:%s" % (c, "first" if first else "later"), make_model(NAMES, base_dom, "Min", co, 0.0, rows), (NAMES, base_dom, "Min", co, 0.0, rows)))
     # right-hand sides, relations, names
-    for rhs in (0.0, 5.0, -5.0, 2.5, 1e-7, -1e-7, 1e9):
+    for rhs in (0.0, 5.0, -5.0, 2.5, 1e-7, -1e-7, 1e9, 1e20, -1e30, 9223372036854775808.0):
         for cmp in ("LessOrEqual", "GreaterOrEqual", "Equal"):
             rows = [("", [1.0, 1.0] + [0.0] * (n - 2), cmp, rhs)]
             models.append(("rhs:%r:%s" % (rhs, cmp), make_model(NAMES, base_dom, "Max", [1.0] + [0.0] * (n - 1), 0.0, rows), (NAMES, base_dom, "Max", [1.0] + [0.0] * (n - 1), 0.0, rows)))
@@ -229,7 +229,7 @@ def family(tier):
         models.append(("rowname:%s" % (nm or "<none>"), make_model(NAMES, base_dom, "Min", [0.0] * n, 0.0, rows), (NAMES, base_dom, "Min", [0.0] * n, 0.0, rows)))
     # offsets and optimisation types
     for opt in ("Min", "Max", "Satisfy"):
-        for off in (0.0, 3.5, -3.5, 1e-7, -1e-7):
+        for off in (0.0, 3.5, -3.5, 1e-7, -1e-7, 1e19):
             for obj in ([0.0] * n, [1.0, -2.5] + [0.0] * (n - 2)):
                 if opt == "Satisfy" and (off != 0.0 or any(obj)):
                     continue
